@@ -1215,9 +1215,11 @@ class t2grid(object):
         if fix_blocknames: mapping = fix_block_mapping(blockmap)
 
         for blk in self.blocklist:
+            if blk.name in blockmap: del self.block[blk.name]
+
+        for blk in self.blocklist:
             name = blk.name
             if name in blockmap:
-                del self.block[name]
                 mapped_name = blockmap[name]
                 self.block[mapped_name] = blk
                 blk.name = mapped_name
